@@ -607,16 +607,12 @@ func (h *hydra) SubscribeToSwampInfo(clientID uuid.UUID, swampName name.Name, su
 		}
 	}()
 
-	if subscribers, ok := h.infoSubscribers.Load(canonicalForm); ok {
-		// Always overwrite the subscriber, since the channel may have changed as well.
-		subscribers.(*sync.Map).Store(clientID.String(), subscriberInfoCallbackFunction)
-		return nil
-	}
-
-	// there is no subscribers to this swamp yet
-	subscribers := &sync.Map{}
-	subscribers.Store(clientID.String(), subscriberInfoCallbackFunction)
-	h.infoSubscribers.Store(canonicalForm, subscribers)
+	// Get the subscriber map of the swamp, creating it when this is the first subscriber.
+	// LoadOrStore makes two concurrent first subscribers share one map; a separate Load and
+	// Store would let the second Store replace the first subscriber's map.
+	subscribers, _ := h.infoSubscribers.LoadOrStore(canonicalForm, &sync.Map{})
+	// Always overwrite the subscriber, since the channel may have changed as well.
+	subscribers.(*sync.Map).Store(clientID.String(), subscriberInfoCallbackFunction)
 
 	return nil
 
@@ -670,16 +666,12 @@ func (h *hydra) SubscribeToSwampEvents(clientID uuid.UUID, swampName name.Name, 
 		}
 	}()
 
-	if subscribers, ok := h.eventSubscribers.Load(canonicalForm); ok {
-		// Always overwrite the subscriber, since the channel may have changed as well.
-		subscribers.(*sync.Map).Store(clientID.String(), subscriberEventCallbackFunction)
-		return nil
-	}
-
-	// there is no subscribers to this swamp yet
-	subscribers := &sync.Map{}
-	subscribers.Store(clientID.String(), subscriberEventCallbackFunction)
-	h.eventSubscribers.Store(canonicalForm, subscribers)
+	// Get the subscriber map of the swamp, creating it when this is the first subscriber.
+	// LoadOrStore makes two concurrent first subscribers share one map; a separate Load and
+	// Store would let the second Store replace the first subscriber's map.
+	subscribers, _ := h.eventSubscribers.LoadOrStore(canonicalForm, &sync.Map{})
+	// Always overwrite the subscriber, since the channel may have changed as well.
+	subscribers.(*sync.Map).Store(clientID.String(), subscriberEventCallbackFunction)
 
 	return nil
 
